@@ -250,6 +250,8 @@ def make_runner(mode, shape=DEF_SHAPES[0], node='FunctionDef', kind='function', 
             # the object may be a CLASS whose own namespace stores a descriptor under __signature__ (specifiers.as_forged):
             # attribute lookup then yields what the descriptor computes, not the stored descriptor
             f.descriptors['__signature__'] = (z3.Bool('own___signature___is_a_descriptor'), Opaque('what the descriptor computes'))
+            # ... or an object that refuses attribute assignment and deletion alike (a frozen dataclass instance)
+            f.frozen = z3.Bool('object_refuses_attribute_changes')
             for o in objs:
                 o.snapshot()
             harness.run_unit(I, ma.ns['autoforwards_function'], [f, (), SymDict()], [], r)
@@ -627,7 +629,9 @@ def vcs(env, want):
                 out.append(VC(c_frame.full + ':' + o.label, [], o.frame_goal(), c_frame.props))
         if on(F_STRIPPED) and mode == 'af_function':
             for o, seen in env.get('own_signature_reads', []):
-                out.append(VC(F_STRIPPED.full + ':' + o.label, [], z3.BoolVal(not seen), F_STRIPPED.props))
+                # (an object that refuses attribute deletion cannot be stripped: stated for objects that allow it)
+                strippable = [z3.Not(o.frozen)] if o.frozen is not None and not isinstance(o.frozen, bool) else []
+                out.append(VC(F_STRIPPED.full + ':' + o.label, strippable, z3.BoolVal(not seen), F_STRIPPED.props))
         if on(F_ASTPRE):
             for n in env['ast_pre']:
                 ok = getattr(n, 'cls', None) in FUNCTION_NODES or not isinstance(n, SymNode)
